@@ -190,6 +190,23 @@ def struct_float(rg):
 FOREIGN = [None, 0, 1, 1.5, 'x', (1, 2), [3], {'a': 1}, object(), True, b'x', float('nan')]
 
 
+def walk_objects(o):
+    out, stack, seen = [], [o], set()
+    while stack:
+        x = stack.pop()
+        if id(x) in seen:
+            continue
+        seen.add(id(x))
+        out.append(x)
+        if hasattr(x, '_inners'):
+            stack.extend(x._inners)
+        elif hasattr(x, '_left'):
+            stack.extend([x._left, x._right])
+        elif hasattr(x, '_inner'):
+            stack.append(x._inner)
+    return out
+
+
 def eq_laws(oa, ob, oc, oa2):
     """oc is ob with numbers respelled (2 <-> 2.0); oa2 is oa rebuilt"""
     try:
@@ -369,6 +386,20 @@ def ops_check(a, c):
                 return 'bad: %r ** expression accepted' % (z,)
             except Exception:  # noqa: BLE001
                 pass
+        import decimal as _dec
+        for z in (_fr.Fraction(5, 2), _fr.Fraction(2), _dec.Decimal('2.5'), _dec.Decimal(2), 2 + 0j, 2.5 + 0j, [2], (2,), '2', b'2', None):
+            # exponents that are neither an expression nor an int nor a float (numeric towers included): never coerced
+            try:
+                r_ = a ** z
+                return 'bad: expression ** %r accepted -> %r' % (z, r_)
+            except Exception:  # noqa: BLE001
+                pass
+            for ctor in (X.NthPower, X.NthRoot):
+                try:
+                    r_ = ctor(a, z)
+                    return 'bad: %s(a, %r) accepted -> %r' % (ctor.__name__, z, r_)
+                except Exception:  # noqa: BLE001
+                    pass
         for f, what in ((lambda: sum([a, c]), 'sum([a, b])'), (lambda: sum([a]), 'sum([a])'),
                         (lambda: math.prod([a, c]), 'math.prod([a, b])')):
             try:
@@ -544,8 +575,8 @@ def run_line(line):
                 o.at(x)
             except (DomainError, CoordinateMissing):
                 return 'ERROR accepted'
-            except Exception:  # noqa: BLE001
-                return 'REJECT'
+            except Exception as ex:  # noqa: BLE001
+                return 'REJECT' + ((' ' + str(ex)) if WITH_MESSAGE else '')
             return 'ERROR accepted'
         return outcome(lambda: o.at(x))
     if cmd == 'FWD':
@@ -577,8 +608,8 @@ def run_line(line):
             d = Derivative(o)
         except (DomainError, CoordinateMissing):
             return 'ERROR ctor'
-        except Exception:  # noqa: BLE001
-            return 'REJECT'
+        except Exception as ex:  # noqa: BLE001
+            return 'REJECT' + ((' ' + str(ex)) if WITH_MESSAGE else '')
         return outcome(lambda: d.at(arg))
     if cmd == 'SYNFWD':
         v = int(ts[1])
@@ -686,6 +717,37 @@ def run_line(line):
         except (OverflowError, ValueError, ZeroDivisionError):
             return 'SKIP'          # an intermediate leaves the double range (cos(inf)): no object to print
         return repr_tokens(repr(ld))
+    if cmd == 'USEDRT':
+        # an expression that was printed and hashed BEFORE it is differentiated and simplified: the result must equal,
+        # hash like and print like the result obtained from a never-touched copy, and its printed form must read back
+        v = int(ts[1])
+        e, _ = sx.parse_expr(ts, 2)
+        nm = sx.name_of(v)
+        o, o2 = build(e), build(e)
+        _ = (repr(o), str(o), hash(o), o in {o: 1})
+        for sub in walk_objects(o):
+            _ = (repr(sub), hash(sub))
+        try:
+            CATCH.hit = False
+            r = Partial(o, nm).as_expression()
+            r2 = Partial(o2, nm).as_expression()
+            if CATCH.hit:
+                return 'SKIP'
+        except OverflowError:
+            return 'SKIP'
+        if not (r == r2) or not (r2 == r):
+            return 'bad: the derivative of a printed-and-hashed expression differs from that of an untouched copy'
+        if hash(r) != hash(r2):
+            return 'bad: equal results hash differently (one comes from an expression that was hashed before)'
+        if repr(r) != repr(r2) or str(r) != str(r2):
+            return 'bad: equal results print differently: %s / %s' % (repr(r)[:80], repr(r2)[:80])
+        try:
+            back = eval(repr(r), dict(PUBLIC))
+        except Exception as ex:  # noqa: BLE001
+            return 'bad: printed result does not evaluate (%s)' % type(ex).__name__
+        if not (back == r) or hash(back) != hash(r):
+            return 'bad: printed result reads back unequal or with another hash: %s' % repr(r)[:100]
+        return 'ok'
     if cmd == 'NAMERT':
         # every name the Variable constructor accepts prints in a form that reads back to an equal object
         # (alone, inside an expression, inside a Partial and as a coordinate name of a Point)
